@@ -999,6 +999,25 @@ class _Impl:
       return 'dict'
     return 'any'            # richer spec: the model only needs "accepts the values the library built"
 
+  def class_fields(self, cls):
+    T = self.pg.typing
+    fields = []
+    for k, f in cls.__schema__.fields.items():
+      spec = f.value
+      d = {'name': str(k), 'kind': self.kind_of(spec),
+           'noneable': bool(spec.is_noneable) or isinstance(spec, T.Any), 'frozen': bool(spec.frozen)}
+      if spec.has_default:
+        w = self.to_wire(spec.default)
+        if '"opaque"' not in json.dumps(w):
+          d['default'] = w
+      fields.append(d)
+    return fields
+
+  def geno_env(self):
+    from pyglove.core import geno
+    return [[c.__serialization_key__, self.class_fields(c)]
+            for c in (geno.Space, geno.Choices, geno.Float, geno.CustomDecisionPoint)]
+
   def dyn_env(self, v):
     """ENV extended with the schemas of every other pg.Object class occurring in `v` (None if a
     class has non-constant keys or a default the tree wire cannot express)."""
@@ -1714,6 +1733,21 @@ class C05(Prop):
       C05._impl = _Impl()
 
   # -- generation ---------------------------------------------------------------------------
+  def extra_checks(self, ctx):
+    """The class schemas the Lean theorem about DNASpec is stated over (`genoEnv`) are the schemas
+    of the real geno classes, as the harness derives class environments from real schemas."""
+    from harness.common import framework
+    self.setup_impl()
+    try:
+      got = framework.Driver(self.driver).run([{'op': 'geno_env'}])[0]['classes']
+    except Exception as e:   # pylint: disable=broad-except
+      ctx.broken.append({'kind': 'correspondence', 'name': 'C05 genoEnv', 'detail': 'driver: %s' % e})
+      return
+    want = C05._impl.geno_env()
+    if got != want:
+      ctx.broken.append({'kind': 'correspondence', 'name': 'C05 genoEnv vs the schemas of pg.geno classes',
+                         'detail': 'lean=%s real=%s' % (json.dumps(got)[:400], json.dumps(want)[:400])})
+
   def generate(self, rng, tier):
     quick = tier == 'quick'
     n_codec = 1400 if quick else 60000
